@@ -1389,7 +1389,7 @@ func (fr *Frame) run(st0 *State) {
 				for _, inv := range fr.fc.LoopInv[ord] {
 					fr.assume(st, fr.evalClause(inv.Src, &Env{fr: fr, st: st, old: fr.entry, loopOrd: ord, binds: fr.ghost}))
 				}
-				if d, ok := fr.fc.LoopDec[ord]; ok {
+				if d, ok := fr.fc.LoopDec[ord]; ok && !strings.HasPrefix(d, "*") {
 					v := fr.evalExpr(d, &Env{fr: fr, st: st, old: fr.entry, loopOrd: ord, binds: fr.ghost})
 					n := c.fresh("variant", "Int")
 					c.defs = append(c.defs, fmt.Sprintf("(assert (=> %s (= %s %s)))", st.pc, n, v.T))
@@ -1431,7 +1431,9 @@ func (fr *Frame) run(st0 *State) {
 						phi := fr.evalClause(inv.Src, &Env{fr: fr, st: s2, old: fr.entry, loopOrd: li.ord, binds: fr.ghost})
 						fr.oblige(s2, fmt.Sprintf("loop%d.inv%d.preserve@b%d", li.ord, k+1, b.Index), phi, last.Pos())
 					}
-					if d, ok := fr.fc.LoopDec[li.ord]; ok {
+					if d, ok := fr.fc.LoopDec[li.ord]; ok && strings.HasPrefix(d, "*") {
+						c.note("%s: loop %d: termination is not proved (declared 'decreases *')", fr.fname, li.ord)
+					} else if ok {
 						v := fr.evalExpr(d, &Env{fr: fr, st: s2, old: fr.entry, loopOrd: li.ord, binds: fr.ghost})
 						fr.oblige(s2, fmt.Sprintf("loop%d.variant@b%d", li.ord, b.Index), fmt.Sprintf("(and (< %s %s) (>= %s 0))", v.T, li.variant0, li.variant0), last.Pos())
 					} else if _, isSliceRange := fr.loopRangeIdx[li.ord]; !hasNext(to) && !fr.fc.Auto && !isSliceRange {
